@@ -1,4 +1,4 @@
 INIT Init
 NEXT Next
-INVARIANTS TypeOK Dump
+INVARIANTS TypeOK Refines Dump
 CHECK_DEADLOCK FALSE
